@@ -22,12 +22,12 @@ type variantMeta struct {
 }
 
 type selftestResult struct {
-	Applied           int      `json:"applied"`
-	FiredAsExpected   int      `json:"fired_as_expected"`
-	SilentAsExpected  int      `json:"silent_as_expected"`
-	Skipped           int      `json:"skipped_patch_does_not_apply"`
-	Unexpected        []string `json:"unexpected"`
-	Variants          []string `json:"variants"`
+	Applied          int      `json:"applied"`
+	FiredAsExpected  int      `json:"fired_as_expected"`
+	SilentAsExpected int      `json:"silent_as_expected"`
+	Skipped          int      `json:"skipped_patch_does_not_apply"`
+	Unexpected       []string `json:"unexpected"`
+	Variants         []string `json:"variants"`
 }
 
 func runSelftest(r *Run) *selftestResult {
